@@ -4,6 +4,7 @@ import (
 	"context"
 	"errors"
 	"fmt"
+	"sort"
 	"strings"
 	gotime "time"
 
@@ -25,6 +26,7 @@ import (
 // from the seed (or read from a replay file).
 type RunConfig struct {
 	Profile   string `json:"profile"`
+	Property  string `json:"property,omitempty"`
 	Clients   int    `json:"clients"`
 	Docs      int    `json:"docs"`
 	Projects  int    `json:"projects"`
@@ -133,6 +135,8 @@ type StepResult struct {
 	Err     error
 	Applied int // edits applied
 	RPC     *RPCRecord
+	Sub     []StepResult // results of the sub-steps of a parallel section
+	Viol    *Violation   // raised by the step-level scheduler (deadlock, lock order, ...)
 }
 
 // classify maps an error returned to a client call to a coarse class.
@@ -162,8 +166,15 @@ func classify(err error) string {
 // Exec executes one step. It never draws from a PRNG.
 func (w *World) Exec(st *Step) (res StepResult) {
 	res.Out = "ok"
+	if st.Op == "par" {
+		return w.execPar(st)
+	}
 	nRPC := len(w.RPCs)
+	inPar := w.Sched != nil
 	defer func() {
+		if inPar {
+			return // plans, restarts and RPC attribution belong to the sequential engine
+		}
 		if len(w.RPCs) > nRPC {
 			res.RPC = w.RPCs[nRPC]
 		}
@@ -183,7 +194,7 @@ func (w *World) Exec(st *Step) (res StepResult) {
 	case "activate", "deactivate", "attach", "detach", "remove", "sync":
 		isRPC = true
 	}
-	if isRPC {
+	if isRPC && !inPar {
 		if st.Net != "" {
 			w.netPlan = &NetFault{Kind: st.Net}
 		}
@@ -191,9 +202,11 @@ func (w *World) Exec(st *Step) (res StepResult) {
 			f := *st.DB
 			w.dbPlan = []*DBFault{&f}
 		}
-		w.curCli = st.C
+		if !inPar {
+			w.curCli = st.C
+		}
 	}
-	ctx := w.ctx
+	ctx := w.ctxFor(st)
 
 	switch st.Op {
 	case "activate":
@@ -481,6 +494,8 @@ func (w *World) Exec(st *Step) (res StepResult) {
 		}
 	case "cs":
 		return w.execCS(st)
+	case "ps":
+		return w.execPS(st)
 	case "c19":
 		return w.execC19(st)
 	case "raw":
@@ -523,4 +538,108 @@ func (w *World) dropHeld(c int) {
 		}
 	}
 	w.held = keep
+}
+
+type ctxSchedKey struct{}
+type ctxClientKey struct{}
+
+// ctxDupKey marks a call whose request the network delivers twice, both copies in
+// flight at the same time (the client's first attempt is slow, it retries).
+type ctxDupKey struct{}
+
+// ctxFor returns the context of a client call: inside a parallel section it
+// names the scheduler task and the client slot, so that the transport can bind
+// the goroutine that performs the round trip to the task.
+func (w *World) ctxFor(st *Step) context.Context {
+	ctx := w.ctx
+	if s := w.Sched; s != nil {
+		if t := s.taskOfGoroutine(false); t != nil {
+			ctx = context.WithValue(ctx, ctxSchedKey{}, t)
+		}
+		ctx = context.WithValue(ctx, ctxClientKey{}, st.C)
+		if st.Net == "dup" {
+			ctx = context.WithValue(ctx, ctxDupKey{}, true)
+		}
+	}
+	return ctx
+}
+
+// laneOf says which task a sub-step of a parallel section belongs to: the
+// calls of one client run one after the other, everything else is a task of
+// its own.
+func laneOf(i int, st *Step) string {
+	switch st.Op {
+	case "activate", "deactivate", "attach", "detach", "remove", "sync", "update", "undo", "redo":
+		return fmt.Sprintf("client%d", st.C)
+	case "ps":
+		return fmt.Sprintf("%s%02d", st.Flag, st.C)
+	}
+	return fmt.Sprintf("%s#%d", st.Op, i)
+}
+
+// execPar runs the sub-steps as concurrent tasks under the step-level scheduler.
+func (w *World) execPar(st *Step) (res StepResult) {
+	res.Out = "ok"
+	res.Sub = make([]StepResult, len(st.Sub))
+	s := newSched(w, uint64(st.I)*0x9e3779b97f4a7c15+1, w.Cfg.Property)
+	s.Script = append([]string(nil), st.Sched...)
+	w.DrainBackground()
+	w.Sched = s
+	lanes := map[string][]int{}
+	var order []string
+	for i := range st.Sub {
+		l := laneOf(i, &st.Sub[i])
+		if _, ok := lanes[l]; !ok {
+			order = append(order, l)
+		}
+		lanes[l] = append(lanes[l], i)
+	}
+	sort.Strings(order)
+	for _, l := range order {
+		idxs := lanes[l]
+		s.Spawn(l, func() {
+			for _, i := range idxs {
+				res.Sub[i] = w.Exec(&st.Sub[i])
+			}
+		})
+	}
+	if st.Flag == "ticks" {
+		s.TickPct = w.Cfg.Extra["tick_pct"]
+		s.FairTicks = true
+	}
+	w.LastSchedTrace = nil
+	s.Run()
+	w.Sched = nil
+	w.LastSchedTrace = s.Trace
+	w.Stats.Probes["sched_steps"] += s.stepNo
+	for _, t := range s.tasks {
+		if t.err != nil {
+			panic(t.err)
+		}
+	}
+	if s.Viol != nil {
+		res.Viol = s.Viol
+		res.Out = "sched:" + s.Viol.Class
+		// tasks that never finish would keep the bubble alive: mark the generation dead
+		w.gen.dead = true
+	} else if s.orderViol != "" {
+		res.Viol = &Violation{Property: s.Prop, Oracle: "lock_order", Class: "lock_order_violated:" + lockOrderClass(s.orderViol), Detail: s.orderViol, Step: w.stepIndex}
+	}
+	w.LastSchedTrace = s.Trace
+	return res
+}
+
+func lockOrderClass(s string) string {
+	// "task X acquires A (...) while holding B (...)"
+	f := strings.Fields(s)
+	a, b := "", ""
+	for i, x := range f {
+		if x == "acquires" && i+1 < len(f) {
+			a = f[i+1]
+		}
+		if x == "holding" && i+1 < len(f) {
+			b = f[i+1]
+		}
+	}
+	return b + "_before_" + a
 }
